@@ -695,7 +695,7 @@ def r01_8(ctx) -> None:
 
 def run(ctx) -> None:
     from .common import forwarding_discipline
-    ctx.guard(forwarding_discipline, "R01.10", ['value', 'payload', 'members', 'member', 'find_key', 'public_key'], 35)  # arguments are handed on under their own name (generic routing rule, rules/common.py)
+    ctx.guard(forwarding_discipline, "R01.10", ['value', 'payload', 'members', 'member', 'find_key', 'public_key'], 35, "jws")  # arguments are handed on under their own name (generic routing rule, rules/common.py)
     fam = verify_family(ctx.eng)
     ctx.guard(r01_8)
     from .c15 import r15_3
@@ -716,7 +716,11 @@ def run(ctx) -> None:
     ctx.guard_as("R01.11", r07_1)
     # "the header members returned are the ones that were signed": key resolution on the consuming side never writes a kid into the received header
     from .c14 import r14_2
-    ctx.guard_as("R01.11", r14_2)
+    from .common import JWS_CONSUME as _JC, entries as _entries, scope_of as _scope_of
+    _within = set()
+    for _e in _entries(ctx.eng, _JC + [("jws", "validate_compact")]):
+        _within.update(_scope_of(ctx.eng, _e))
+    ctx.guard_as("R01.11", r14_2, within=_within)  # only the verifying operations' call sites
     # "under ... the algorithm named in its header": the model the gate hands out is the table entry of exactly the name asked for (no aliasing)
     from .c05 import r05_3
     ctx.guard_as("R01.12", r05_3)
